@@ -831,6 +831,19 @@ def gen_length_programs():
                         "vols": {"shape": "list", "v": ["10", "20", "30"]}, "label": None, "ws": 1})
             out.append({"dev": "evo", "wl": {"max_volume": "950", "max_int": False, "auto_split": True, "diti_mode": False},
                         "labware": [mk(sk, "src", True), mk(dk, "dst", False)], "ops": ops, "family": "lengths"})
+    # limits are exact: a hair beyond max_volume / below min_volume (far less than 1e-5 of the limit) is refused
+    for dev_ in ("evo",):
+        pl = {"kind": "plate", "name": "P", "rows": 2, "cols": 2, "min": "10", "max": "1000", "init": {"shape": "scalar", "v": "990"}}
+        tr = {"kind": "trough", "name": "T", "vrows": 2, "cols": 1, "min": "1000", "max": "100000", "init": {"shape": "scalar", "v": "50000"}}
+        ops = [{"op": "dispense", "lw": 0, "wells": {"shape": "list", "v": ["A01"]}, "vols": {"shape": "list", "v": ["1281/128"]}, "label": None, "comps": None, "kw": None},
+               {"op": "transfer", "src": 1, "swells": {"shape": "list", "v": ["A01"]}, "dst": 0, "dwells": {"shape": "list", "v": ["B01"]}, "vols": {"shape": "list", "v": ["10241/1024"]}, "label": None, "ws": 1},
+               {"op": "aspirate", "lw": 0, "wells": {"shape": "list", "v": ["A02"]}, "vols": {"shape": "list", "v": ["1003521/1024"]}, "label": None, "kw": None},
+               {"op": "transfer", "src": 1, "swells": {"shape": "list", "v": ["B01"]}, "dst": 0, "dwells": {"shape": "list", "v": ["B02"]}, "vols": {"shape": "list", "v": ["10"]}, "label": None, "ws": 1},
+               {"op": "add", "lw": 0, "wells": {"shape": "list", "v": ["A02"]}, "vols": {"shape": "list", "v": ["641/64"]}, "label": None, "comps": None},
+               {"op": "remove", "lw": 1, "wells": {"shape": "list", "v": ["A01"]}, "vols": {"shape": "list", "v": ["6271489/128"]}, "label": None}]
+        for k_, op_ in enumerate(ops):
+            out.append({"dev": dev_, "wl": {"max_volume": "950", "max_int": False, "auto_split": True, "diti_mode": False},
+                        "labware": [pl, tr], "ops": [op_], "family": "lengths"})
     # reagent distributions whose volume is just above max_volume / k: the multi-dispense count must be floored to k - 1
     for mv, vols in (("950", ["7601/16", "1267/4", "3801/16", "475", "1901/4"]), ("200", ["1601/16", "401/8", "100"])):
         ops = [{"op": "distribute", "src": 0, "col": 0, "dst": 1, "dwells": {"shape": "list", "v": ["A01", "B01", "C01"]}, "volume": v,
